@@ -521,3 +521,42 @@ def regex_language(pattern: str, limit: int = 64) -> set[str] | None:
         return None
 
     return seq(tree)
+
+
+def inline_locals(expr: ast.AST, fn: ast.AST, keep: set[str] | frozenset[str] = frozenset(), depth: int = 3) -> ast.AST:
+    """`expr` with every local that the function binds exactly once (plain `name = <expression>`, no augmented or
+    conditional re-binding) replaced by that expression - the named-boolean refactoring undone, so that a test can
+    be folded over its real variables.  Names in `keep` (the variables of the fold) are left alone."""
+    import copy
+
+    binds: dict[str, list[ast.AST]] = {}
+    for s in ast.walk(fn):
+        if isinstance(s, ast.Assign):
+            for t in s.targets:
+                for x in ast.walk(t):
+                    if isinstance(x, ast.Name):
+                        binds.setdefault(x.id, []).append(s.value if (len(s.targets) == 1 and t is s.targets[0] and isinstance(t, ast.Name)) else None)
+        elif isinstance(s, (ast.AugAssign, ast.AnnAssign)) and isinstance(s.target, ast.Name):
+            binds.setdefault(s.target.id, []).append(s.value if isinstance(s, ast.AnnAssign) else None)
+        elif isinstance(s, (ast.For, ast.AsyncFor, ast.comprehension)):
+            for x in ast.walk(s.target):
+                if isinstance(x, ast.Name):
+                    binds.setdefault(x.id, []).append(None)
+        elif isinstance(s, ast.NamedExpr):
+            binds.setdefault(s.target.id, []).append(None)
+    params = {a.arg for a in getattr(fn, "args", ast.arguments(posonlyargs=[], args=[], kwonlyargs=[], kw_defaults=[], defaults=[])).args} if hasattr(fn, "args") else set()
+    single = {n: v[0] for n, v in binds.items() if len(v) == 1 and v[0] is not None and n not in keep and n not in params}
+
+    class Sub(ast.NodeTransformer):
+        def visit_Name(self, n: ast.Name):  # noqa: N802
+            if isinstance(n.ctx, ast.Load) and n.id in single:
+                return copy.deepcopy(single[n.id])
+            return n
+
+    out = copy.deepcopy(expr)
+    for _ in range(depth):
+        before = ast.dump(out)
+        out = ast.fix_missing_locations(Sub().visit(out))
+        if ast.dump(out) == before:
+            break
+    return out
